@@ -78,6 +78,67 @@ type Tx struct {
 	ddl      bool
 	notifs   []Notif
 	failed   bool
+	saves    []savepoint
+}
+
+// savepoint: the transaction's private overlay as it was when the savepoint
+// was set.
+type savepoint struct {
+	name     string
+	inserted map[string][]*Row
+	deleted  map[string]map[uint64]*Row
+	nnotifs  int
+}
+
+func (tx *Tx) copyOverlay() (map[string][]*Row, map[string]map[uint64]*Row) {
+	ins := map[string][]*Row{}
+	for k, v := range tx.inserted {
+		ins[k] = append([]*Row(nil), v...)
+	}
+	del := map[string]map[uint64]*Row{}
+	for k, m := range tx.deleted {
+		c := map[uint64]*Row{}
+		for id, r := range m {
+			c[id] = r
+		}
+		del[k] = c
+	}
+	return ins, del
+}
+
+func (tx *Tx) savepoint(name string) {
+	ins, del := tx.copyOverlay()
+	tx.saves = append(tx.saves, savepoint{name, ins, del, len(tx.notifs)})
+}
+
+// rollbackTo restores the overlay of the newest savepoint of that name (the
+// savepoint stays defined, later ones are dropped). ok=false: no such savepoint.
+func (tx *Tx) rollbackTo(name string) bool {
+	for i := len(tx.saves) - 1; i >= 0; i-- {
+		if tx.saves[i].name == name {
+			sp := tx.saves[i]
+			tx.saves = tx.saves[:i+1]
+			tx.inserted, tx.deleted = sp.inserted, sp.deleted
+			// keep a private copy in the savepoint for a second rollback to it
+			ins, del := tx.copyOverlay()
+			tx.saves[i].inserted, tx.saves[i].deleted = ins, del
+			if sp.nnotifs <= len(tx.notifs) {
+				tx.notifs = tx.notifs[:sp.nnotifs]
+			}
+			return true
+		}
+	}
+	return false
+}
+
+func (tx *Tx) release(name string) bool {
+	for i := len(tx.saves) - 1; i >= 0; i-- {
+		if tx.saves[i].name == name {
+			tx.saves = tx.saves[:i]
+			return true
+		}
+	}
+	return false
 }
 
 func (db *DB) newTx(owner string, connID int) *Tx {
